@@ -26,7 +26,7 @@ FILL_BYTES = [0x20, 0x09, 0x0a, 0x0d, 0x00, 0xff, 0x40, 0x30, 0x2d, 0x5f, 0x66, 
 
 
 def frames_of(config, codec, hexbm, data):
-    res = refcodec.decode(config, codec, hexbm, data, strict=True)
+    res = refcodec.decode(config, codec, hexbm, data, strict=True, de43=False)
     return res.frames if res.ok else [('mti', 0, 0, 4), ('bitmap', 0, 4, 4 + (32 if hexbm else 16))]
 
 
